@@ -3,7 +3,7 @@
 From Coq Require Import List Arith ZArith Lia Bool NArith.
 From DSD Require Import Base.Str Base.Errors Base.Val Base.Sort Model.ComplexUtils Model.Rotation Model.Compare
   Model.Canon Model.Iupac Model.Legacy
-  Proofs.C10 Proofs.RotTree Proofs.RotOnce Proofs.RotOrbit Proofs.RotStrands Proofs.RotGen Proofs.C02 Proofs.C17 Proofs.C20.
+  Proofs.C10 Proofs.RotTree Proofs.RotOnce Proofs.RotOrbit Proofs.RotStrands Proofs.RotGen Proofs.C02 Proofs.C03 Proofs.C17 Proofs.C20.
 Import ListNotations.
 
 Lemma first_index_In k vs e : first_index k vs = Some e -> In (k, e) vs.
@@ -84,3 +84,79 @@ Example ex_legacy_rotations :
   legacy_canonical [b; p; c; p; a] [46; 43; 46; 43; 46]%N [] =
     LOk ([a; p; b; p; c], [46; 43; 46; 43; 46]%N) 1.
 Proof. vm_compute. reflexivity. Qed.
+
+(* ---- the rotation distance reported with a duplicate ---- *)
+Lemma legacy_loop_dup_idx f : forall e x vs x0 ca, good x0 -> 1 <= e -> x = Nat.iter (e - 1) rotT x0 ->
+  forall i e', legacy_loop f e x [ca] vs = inr (i, e') ->
+  i = 0 /\ Nat.iter e' rotT x0 = ca /\ e <= e' < e + f.
+Proof.
+  induction f as [|f IH]; intros e x vs x0 ca G0 He Hx i e'; cbn [legacy_loop]; [discriminate|].
+  assert (G : good x) by (rewrite Hx; apply good_iter, G0).
+  rewrite (legacy_rot1_good x G).
+  assert (Hy : rotT x = Nat.iter (S e - 1) rotT x0).
+  { rewrite Hx. replace (S e - 1) with (S (e - 1)) by lia. reflexivity. }
+  destruct (first_index (rotT x) vs) as [e0|] eqn:F.
+  - intros H. destruct (IH (S e) (rotT x) vs x0 ca G0 ltac:(lia) Hy i e' H) as (A & B & C).
+    split; [exact A|]. split; [exact B|lia].
+  - destruct (ckey_eqb (rotT x) ca) eqn:E.
+    + intros H. injection H as <- <-. split; [reflexivity|]. split; [|lia].
+      apply ckey_eqb_eq in E. rewrite <- E, Hy. f_equal. lia.
+    + intros H. destruct (IH (S e) (rotT x) ((rotT x, e) :: vs) x0 ca G0 ltac:(lia) Hy i e' H) as (A & B & C).
+      split; [exact A|]. split; [exact B|lia].
+Qed.
+
+Lemma wrap_small d n : (0 < n)%Z -> (- n < d < n)%Z -> wrap d n = if (d <? 0)%Z then (d + n)%Z else d.
+Proof.
+  intros Hn Hd. rewrite (wrap_mod d n Hn). destruct (d <? 0)%Z eqn:E.
+  - apply Z.ltb_lt in E. replace d with ((d + n) + (-1) * n)%Z at 1 by ring.
+    rewrite Z_mod_plus_full. apply Z.mod_small. lia.
+  - apply Z.ltb_ge in E. apply Z.mod_small. lia.
+Qed.
+
+(* with A registered (canonical form ca, A = ra turns of ca), a request B reported as its duplicate at variant e:
+   the registered object is the one reported (index 0), and the reported distance (size - e) - ra, wrapped the way
+   rotate_pairtable_loc wraps it, is the number of turns that leads from A's representation to B's *)
+Theorem legacy_dup_rotations A B ca ra i e : goodNE A -> goodNE B ->
+  legacy_canonical (fst A) (snd A) [] = LOk ca ra ->
+  legacy_canonical (fst B) (snd B) [ca] = LDup i e ->
+  let n := nstr (snd B) in
+  i = 0 /\ 1 <= e <= n /\ nstr (snd A) = n /\
+  B = Nat.iter (Z.to_nat (wrap (Z.of_nat (n - e) - Z.of_nat ra) (Z.of_nat n))) rotT A.
+Proof.
+  intros GA GB HA HB n.
+  destruct (legacy_rotations_spec A GA ca ra HA) as [HAc Hra].
+  pose proof GB as [G N]. revert HB. unfold legacy_canonical. rewrite (aligned_len B G). cbn [negb].
+  rewrite (n_strands_nstr B GB). fold n.
+  assert (Hn : n <> 0) by (unfold n, nstr; lia).
+  assert (HBeq : (fst B, snd B) = B) by (destruct B; reflexivity). rewrite HBeq.
+  destruct (legacy_loop n 1 B [ca] []) as [[vs|k]|[i0 e0]] eqn:L.
+  - destruct (min_key (map fst vs)) as [c|]; [|intros H; discriminate H].
+    destruct (first_index c vs); intros H; discriminate H.
+  - intros H; discriminate H.
+  - intros H. injection H as <- <-.
+    destruct (legacy_loop_dup_idx n 1 B [] B ca G (le_n 1) eq_refl i0 e0 L) as (Hi & Hc & He).
+    assert (Gc : good ca) by (rewrite <- Hc; apply good_iter, G).
+    assert (Nc : nstr (snd ca) = n) by (rewrite <- Hc; apply nstr_iter_rotT, G).
+    assert (NA : nstr (snd A) = n) by (rewrite <- HAc, nstr_iter_rotT by exact Gc; exact Nc).
+    split; [exact Hi|]. split; [lia|]. split; [exact NA|].
+    assert (HBc : B = Nat.iter (n - e0) rotT ca).
+    { rewrite <- Hc, <- iter_add. replace (n - e0 + e0) with n by lia. symmetry. apply (rotT_orbit B G). }
+    rewrite wrap_small by lia.
+    rewrite <- HAc at 1. rewrite <- iter_add.
+    destruct (Z.of_nat (n - e0) - Z.of_nat ra <? 0)%Z eqn:E.
+    + apply Z.ltb_lt in E.
+      replace (Z.to_nat (Z.of_nat (n - e0) - Z.of_nat ra + Z.of_nat n) + ra) with ((n - e0) + n) by lia.
+      assert (Orb : Nat.iter n rotT ca = ca) by (rewrite <- Nc; apply (rotT_orbit ca Gc)).
+      rewrite iter_add, Orb. exact HBc.
+    + apply Z.ltb_ge in E.
+      replace (Z.to_nat (Z.of_nat (n - e0) - Z.of_nat ra) + ra) with (n - e0) by lia. exact HBc.
+Qed.
+
+Example ex_legacy_dup_rotations :
+  let b := [98%N] in let a := [97%N] in let c := [99%N] in let p := [43%N] in
+  let dots := [46; 43; 46; 43; 46]%N in
+  legacy_canonical [b; p; c; p; a] dots [] = LOk ([a; p; b; p; c], dots) 1 /\
+  legacy_canonical [c; p; a; p; b] dots [([a; p; b; p; c], dots)] = LDup 0 1 /\
+  wrap (Z.of_nat (3 - 1) - 1) 3 = 1%Z /\
+  rotT ([b; p; c; p; a], dots) = ([c; p; a; p; b], dots).
+Proof. vm_compute. repeat split; reflexivity. Qed.
